@@ -130,6 +130,9 @@ func prepareRender(c J) (*renderSetup, error) {
 	if err != nil {
 		return nil, err
 	}
+	if env == nil && (jbool(c, "weird") || jbool(c, "testenv")) {
+		env = map[string]any{}
+	}
 	if jbool(c, "weird") {
 		for k, v := range weirdEnv() {
 			if _, ok := env[k]; !ok {
@@ -199,7 +202,10 @@ func prepareRender(c J) (*renderSetup, error) {
 			// an unparseable cached source cannot be registered through the API
 			return nil, fmt.Errorf("cache entries must parse")
 		}
-		if _, err := eng.ParseTemplateAndCache([]byte(content), full, 1); err != nil {
+		cbuf := []byte(content)
+		_, err = eng.ParseTemplateAndCache(cbuf, full, 1)
+		scribble(cbuf)
+		if err != nil {
 			return nil, fmt.Errorf("cache entry does not parse: %v", err)
 		}
 	}
@@ -208,6 +214,9 @@ func prepareRender(c J) (*renderSetup, error) {
 		gv, err := realise(jobj(v), repr, name)
 		if err != nil {
 			return nil, err
+		}
+		if rs.bindings == nil {
+			rs.bindings = map[string]any{}
 		}
 		rs.bindings[name] = gv
 	}
@@ -230,6 +239,27 @@ func (p *printer) fileSource(fa []any) (string, error) {
 	return s, nil
 }
 
+// The source passed to a parse call belongs to the caller, who may reuse the buffer as soon as the call has
+// returned (a reader's buffer, say): every parse in the harness goes through a buffer that is overwritten afterwards.
+func scribble(buf []byte) {
+	for i := range buf {
+		buf[i] = '#'
+	}
+}
+
+func parseScribbled(eng *liquid.Engine, src, path string, line int) (*liquid.Template, liquid.SourceError) {
+	buf := []byte(src)
+	var tpl *liquid.Template
+	var err liquid.SourceError
+	if path == "" && line == 0 {
+		tpl, err = eng.ParseTemplate(buf)
+	} else {
+		tpl, err = eng.ParseTemplateLocation(buf, path, line)
+	}
+	scribble(buf)
+	return tpl, err
+}
+
 var errWriter = errors.New("harness: injected writer failure")
 
 func doRender(rs *renderSetup, entry string) result {
@@ -237,7 +267,7 @@ func doRender(rs *renderSetup, entry string) result {
 		eng := rs.engine
 		switch entry {
 		case "", "Render":
-			tpl, err := eng.ParseTemplateLocation([]byte(rs.src), rs.path, rs.line0)
+			tpl, err := parseScribbled(eng, rs.src, rs.path, rs.line0)
 			if err != nil {
 				return errResult("parse", err, rs.root)
 			}
@@ -261,7 +291,7 @@ func doRender(rs *renderSetup, entry string) result {
 			}
 			return first
 		case "RenderString":
-			tpl, err := eng.ParseTemplateLocation([]byte(rs.src), rs.path, rs.line0)
+			tpl, err := parseScribbled(eng, rs.src, rs.path, rs.line0)
 			if err != nil {
 				return errResult("parse", err, rs.root)
 			}
@@ -271,7 +301,7 @@ func doRender(rs *renderSetup, entry string) result {
 			}
 			return result{Outcome: "ok", Out: []byte(out)}
 		case "FRender":
-			tpl, err := eng.ParseTemplateLocation([]byte(rs.src), rs.path, rs.line0)
+			tpl, err := parseScribbled(eng, rs.src, rs.path, rs.line0)
 			if err != nil {
 				return errResult("parse", err, rs.root)
 			}
